@@ -31,6 +31,7 @@ theorem wf_query (sk : List Cl) (h : guardedBy isQ sk = true) (i : In) (hq : i.q
       · exact ho
       · exact ih (by simpa using h) o ho
     | r => simp [guardedBy, isQ] at h
+    | x => simp [guardedBy, isQ] at h
     | n =>
       simp only [guardedBy, isQ] at h
       simp only [run]
@@ -52,6 +53,7 @@ theorem wf_range (sk : List Cl) (h : guardedBy isC sk = true) (i : In) (hq : i.q
     | c => simp [run, ht, ho]
     | w => simp [run, ht, hw, ho]
     | r => simp [guardedBy, isC] at h
+    | x => simp [guardedBy, isC] at h
     | n =>
       simp only [guardedBy, isC] at h
       simp only [run]
@@ -92,6 +94,9 @@ theorem manager_conventions : Gen.cdCheckCounterValidityOk = true ∧ Gen.cdQuer
 
 -- non-vacuity
 example : Gen.registrations.length = 73 := by decide
-example : (run [.n, .q, .c, .n, .r, .n] ⟨false, false, false⟩ {}).rewrote = true := by decide
+example : (run [.n, .q, .c, .n, .r, .n] { queryOnly := false, tooBig := false, warn := false } {}).rewrote = true := by decide
+/-- why a silent return before the counter check is not well-formed: the out-of-range counter ends without the error -/
+example : (run [.x, .q, .c, .r] { queryOnly := false, tooBig := true, warn := false, silent := true } {}).maxInstanceError = false := by decide
+example : wf [.x, .q, .c, .r] = false := by decide
 
 end Cvise.C19
